@@ -534,7 +534,13 @@ func (lr *lRunner) run(c *lCase) error {
 	ctx, cancel := context.WithTimeout(context.Background(), 20*time.Second)
 	defer cancel()
 	st.take()
-	st.cap = (len(c.Univ)+3)*(2<<strings.Count(c.Node.String(), "http")) + 50
+	// far above what any correct listing needs (a unifier in front of a paged member drains
+	// it once per request of the hop above: hops multiply)
+	st.cap = 4
+	for h := strings.Count(c.Node.String(), "http"); h > 0 && st.cap < 50000; h-- {
+		st.cap *= len(c.Univ) + 3
+	}
+	st.cap = min(st.cap, 50000) + 50
 	panicked := func() (p any) {
 		defer func() { p = recover() }()
 		switch c.Kind {
